@@ -216,6 +216,19 @@ func c10Exec(c *mon.Case) {
 			c.Failf("rendering differs from the reference semantics"+cls, "template=%q variables=%q\nwant %q\ngot  %q", src, vars, want, got)
 			return
 		}
+		// the same on an instance that has already parsed another template
+		var got2 string
+		var e1, e2 error
+		if p := mon.Try(func() {
+			t := mustache.NewMustacheTemplate()
+			t.SetTemplate("warm {{zz}} up {{#q}}x{{/q}}")
+			if e1 = t.SetTemplate(src); e1 == nil {
+				got2, e2 = t.EvaluateWithVariables(vars)
+			}
+		}); p != nil || e1 != nil || e2 != nil || got2 != want {
+			c.Failf("rendering on a reused template instance differs from the reference semantics"+cls, "template=%q variables=%q\nwant %q\ngot  %q (%v %v %v)", src, vars, want, got2, p, e1, e2)
+			return
+		}
 		if hasKind(nodes, "section") {
 			c.NonTrivial()
 		}
